@@ -86,9 +86,9 @@ def run(ctx):
     ctx.rule_text = 'one obligation per formula identity, bracket end, branch orientation, midpoint, seed and return'
     ctx.trusted = ['Canonne-Kamath-Steinke 2020 Prop. 12 / Cor. 13 and Bun-Steinke 2016 Prop. 1.3 as transcribed in this rule',
                    'log delta(alpha) is convex in alpha; log(1-x) >= -x/(1-x)']
-    cd = repo.func(CDP, 'cdp_delta')
-    ce = repo.func(CDP, 'cdp_eps')
-    cr = repo.func(CDP, 'cdp_rho')
+    cd = repo.nfunc(CDP, 'cdp_delta')
+    ce = repo.nfunc(CDP, 'cdp_eps')
+    cr = repo.nfunc(CDP, 'cdp_rho')
     check_cdp_delta(ctx, cd)
     check_inverse(ctx, ce, cd, searched=1, kind='eps')
     check_inverse(ctx, cr, cd, searched=0, kind='rho')
@@ -197,8 +197,10 @@ def is_exact_zero_test(t, name, mod):
 
 
 def zero_case(fi, rho):
+    from ..normalise import Defs, expand
+    defs = Defs(fi.body)
     for s in fi.body:
-        if isinstance(s, ast.If) and is_exact_zero_test(s.test, rho, fi.module) and \
+        if isinstance(s, ast.If) and is_exact_zero_test(expand(s.test, defs), rho, fi.module) and \
                 len(s.body) == 1 and isinstance(s.body[0], ast.Return) and U(s.body[0].value) in ('0', '0.0'):
             return s
     return None
@@ -212,7 +214,8 @@ def early_exits(ctx, fi, allowed_tests, final_returns, what):
             continue
         n += 1
         par = getattr(r, '_parent', None)
-        ok = isinstance(par, ast.If) and r in par.body and len(par.body) == 1 and allowed_tests(par.test) \
+        from ..normalise import Defs, expand
+        ok = isinstance(par, ast.If) and r in par.body and len(par.body) == 1 and allowed_tests(expand(par.test, Defs(fi.body))) \
             and r.value is not None and U(r.value) in ('0', '0.0')
         ctx.ob('early-exit', fi, par if isinstance(par, ast.If) else r, ok,
                '%s: an early return must be one of the degenerate cases with an exact test (%s) returning 0; found `%s` under `%s`'
